@@ -159,8 +159,8 @@ Usage:
 		cli.argvalues = append(cli.argvalues, v)
 	}
 	for k, v := range opts.ArgJSON {
-		val, _ := newJSONInputIter(strings.NewReader(v), "$"+k).Next()
-		if err, ok := val.(error); ok {
+		val, err := parseJSONArg(v, "$"+k)
+		if err != nil {
 			return err
 		}
 		cli.argnames = append(cli.argnames, "$"+k)
@@ -189,8 +189,8 @@ Usage:
 	positional := opts.Args
 	for i, v := range opts.JSONArgs {
 		if v != nil {
-			val, _ := newJSONInputIter(strings.NewReader(v.(string)), "--jsonargs").Next()
-			if err, ok := val.(error); ok {
+			val, err := parseJSONArg(v.(string), "--jsonargs")
+			if err != nil {
 				return err
 			}
 			if i < len(positional) {
@@ -275,6 +275,18 @@ Usage:
 		iter = newNullInputIter()
 	}
 	return cli.process(iter, code)
+}
+
+func parseJSONArg(src, name string) (any, error) {
+	iter := newJSONInputIter(strings.NewReader(src), name)
+	val, ok := iter.Next()
+	if err, isErr := val.(error); isErr {
+		return nil, err
+	}
+	if _, more := iter.Next(); !ok || more {
+		return nil, fmt.Errorf("invalid json: %s: expected a single JSON value", name)
+	}
+	return val, nil
 }
 
 func slurpFile(name string) (any, error) {
